@@ -577,9 +577,11 @@ func stripHiddenRecipientsSerialized(m map[string]interface{}, deep bool) {
 }
 
 // unprefixedMemberName returns a JSON member name without the vocabulary
-// alias in front of it, if it has one ('as:bto' is 'bto'; an IRI is itself).
+// alias in front of it, if it has one ('as:bto' is 'bto'). An alias is any
+// string, so everything up to the last colon goes; what is left of an IRI is
+// not a member name.
 func unprefixedMemberName(k string) string {
-	if i := strings.LastIndex(k, ":"); i >= 0 && !strings.Contains(k[:i], "/") {
+	if i := strings.LastIndex(k, ":"); i >= 0 {
 		return k[i+1:]
 	}
 	return k
